@@ -69,6 +69,21 @@ def run(ctx):
             tgt = how.split(":", 1)[1]
             c.require_after(ctx, R1, k, tgt, ("effects",), "all effects happen inside %s" % pp.short(tgt))
 
+    # the cutoff that is checked is the one the slate arrived with: no step rewrites ttl_cutoff_height before its check_ttl
+    for fid_ in sorted(db.fns):
+        f_ = db.fns[fid_]
+        from ..callgraph import non_production as _np
+        if _np(fid_) or not fid_.startswith(c.LW + "api_impl::"):
+            continue
+        cts = cfg.find_calls(f_, CHECK_TTL)
+        asg = vf.field_assignments(f_, c.LW + "slate::Slate", "ttl_cutoff_height")
+        if not cts or not asg:
+            continue
+        cb = {b for b, _t in cts}
+        bad = [b for b, _st in asg if any(x in cfg.reach(f_, starts=[b]) for x in cb)]
+        run.instance(R1, {"fn": pp.short(fid_), "obligation": "slate.ttl_cutoff_height is not rewritten before check_ttl", "assignments": len(asg)}, held=not bad)
+        if bad:
+            run.finding(Finding(R1, fid_, "the slate's ttl_cutoff_height is overwritten before check_ttl examines it (an expired slate would be judged by the new cutoff)", site=c.site_of(f_, bad[0])))
     R2 = "C17.R2"
     run.rule(R2, "boundary: refuse iff cutoff != 0 and last_confirmed_height >= cutoff; cancel iff tip >= cutoff", floor=6)
     f = ctx.fn(CHECK_TTL)
